@@ -209,7 +209,7 @@ def restored_on_all_exits(ctx, ev):
         if not dels:
             return False
         ids = set(d.id for d in dels)
-        return all(cfg.all_paths_hit(cfg.entry.id, ids, [n.id], exc=True) for n in cfg.nodes_of(c))
+        return all(cfg.all_paths_hit(cfg.entry.id, ids | _infeasible_for(cfg, n), [n.id], exc=True) for n in cfg.nodes_of(c))
     if e.kind != "subdel":
         return False
     fi = e.fi
@@ -233,9 +233,24 @@ def restored_on_all_exits(ctx, ev):
         return False
     for dn in cfg.nodes_of(node):
         for s in cfg.succs(dn.id, exc=False):
-            if not cfg.post_dominated_by(s, inverse, exc=True):
+            if not cfg.post_dominated_by(s, inverse | _infeasible_for(cfg, dn), exc=True):
                 return False
     return True
+
+
+def _infeasible_for(cfg, node):
+    """Edges that cannot be taken on a path through ``node``: ``node`` lies under the true edge of a test of a boolean local that is assigned
+    once, so the false edges of every other test of that local are infeasible there (and vice versa) - `if flag: del x[0] ... finally: if flag: x.insert(0, ..)`."""
+    out = set()
+    for e in cfg.nodes:
+        if e.kind in ("T", "F") and isinstance(e.ast, ast.Name) and cfg.dominates(e.id, node.id, exc=True):
+            name = e.ast.id
+            if len(cfg.writes(lambda t, nm=name: t == nm)) != 1:
+                continue
+            for o in cfg.nodes:
+                if o.kind in ("T", "F") and isinstance(o.ast, ast.Name) and o.ast.id == name and o.kind != e.kind:
+                    out.add(o.id)
+    return out
 
 
 def run(ctx):
